@@ -47,7 +47,7 @@ def order_of_property():
 
 
 def available_slots(entry: str, alias: str, tkind: str) -> list[str]:
-    keys = [k for k in KEYS if not (k == "ann" and alias == "none") and not (k == "or" and TKINDS[tkind]["or"] is None)]
+    keys = [k for k in KEYS if not (k == "ann" and alias in ("none", "unhashable")) and not (k == "or" and TKINDS[tkind]["or"] is None)]
     out = [] if entry == "codec_bare" else ["F1", "F2"]
     out += [f"{lvl}.{key}" for lvl in ENTRY_LEVELS[entry] for key in keys]
     return out
@@ -66,12 +66,14 @@ def pick_variant(rng, slot: str) -> str:
 
 def gen_case(rng, entry=None, alias=None, tkind=None, present=None) -> dict:
     entry = entry or rng.choices(list(ENTRY_LEVELS), weights=[25, 35, 25, 15])[0]
-    alias = alias or rng.choices(["annotated", "newtype", "none"], weights=[60, 25, 15])[0]
+    # "unhashable": Annotated alias whose metadata is a list - it cannot be a table key and the code must skip it
+    alias = alias or rng.choices(["annotated", "newtype", "none", "unhashable"], weights=[55, 22, 13, 10])[0]
     tkind = tkind or rng.choices(list(TKINDS), weights=[50, 25, 25])[0]
     av = available_slots(entry, alias, tkind)
     if present is None:
         p = rng.choice([0.12, 0.25, 0.4, 0.6, 0.85])
-        present = [s for s in av if rng.random() < p]
+        # the two field slots beat everything: keep them rarer so that table slots get to win
+        present = [s for s in av if rng.random() < (min(p, 0.2) if s in ("F1", "F2") else p)]
     slots = {s: pick_variant(rng, s) for s in present}
     # a level without registrations: dialect absent, or present with an unrelated table
     empty = {lvl: rng.choice(["absent", "unrelated"]) for lvl in ENTRY_LEVELS[entry]}
@@ -234,6 +236,8 @@ def build_source(case: dict) -> str:
         L.append('ALIAS = Annotated[EX, "m"]')
     elif alias == "newtype":
         L.append('ALIAS = NewType("ALIAS", EX)')
+    elif alias == "unhashable":
+        L.append('ALIAS = Annotated[EX, ["m"]]')
     L.append("FT = " + ("EX" if alias == "none" else "ALIAS"))
     keyname = {"ann": "ALIAS", "ex": "EX", "or": "OR"}
 
@@ -409,29 +413,38 @@ def coq_obs(obs: dict) -> str:
 
 def coq_case(case: dict, d: str, obs: dict) -> str:
     tor = "tOr" if TKINDS[case["tkind"]]["or"] else "tEx"
-    alias = {"annotated": 0, "newtype": 1, "none": 2}[case["alias"]]
+    alias = {"annotated": 0, "newtype": 1, "none": 2, "unhashable": 3}[case["alias"]]
     o = dict(obs)
     o["_d"] = d
     return f"({'Ser' if d == 'ser' else 'De'}, {coq_sources(case)}, {alias}, {tor}, {coq_obs(o)})"
 
 
-COQ_DEFS = """
+COQ_DEFS_MODEL = """
 Open Scope nat_scope.
 Definition tAnn := KObj 11.  Definition tEx := KObj 12.  Definition tOr := KObj 13.
 Definition tStr := KObj 18.  Definition tAny := KObj 19.
+Definition tUnh := KList [KStr "m"].     (* Annotated[..., ["m"]]: truthy, unhashable *)
+Definition case_t : Type := dir * sources * nat * kv * option (list nat * nat).
+Definition c_an (alias: nat) : kv := match alias with 2 => KNone | 3 => tUnh | _ => tAnn end.
+Definition c_ks (alias: nat) (Ox: kv) : list kv := match alias with 2 => [tEx; Ox] | _ => [c_an alias; tEx; Ox] end.
+Definition c_stale (alias: nat) : list kv := match alias with 0 => [tAnn] | 3 => [tUnh] | _ => [] end.
+(* the model: applied, built on resolve *)
+Definition model_ok (c: case_t) : bool :=
+  match c with (d, Sr, alias, Ox, obs) => obs_eqb (applied 40 Sr (c_ks alias Ox) (c_stale alias) tAny d true) obs end.
+"""
+
+COQ_DEFS_KERNEL = """
 (* NewType: the registry first resolves with type = origin = the NewType object and no
    annotated type, then re-enters with the supertype (pack/unpack_special_typing_primitive) *)
 Definition kernel_nt (d: dir) (Sr: sources) (Tx Ox: kv) : res kv :=
   match kernel d Sr KNone tAnn tAnn with Ok KNone => kernel d Sr KNone Tx Ox | r => r end.
-Definition case_ok (c: dir * sources * nat * kv * option (list nat * nat)) : bool :=
+(* the code translated from /repo on this run, on the same tables *)
+Definition kernel_ok (c: case_t) : bool :=
   match c with (d, Sr, alias, Ox, obs) =>
-    let An := match alias with 2 => KNone | _ => tAnn end in
-    let ks := match alias with 2 => [tEx; Ox] | _ => [tAnn; tEx; Ox] end in
-    let stale := match alias with 0 => [tAnn] | _ => [] end in
-    let kern := match alias with 1 => kernel_nt d Sr tEx Ox | _ => kernel d Sr An tEx Ox end in
-    obs_eqb (applied 40 Sr ks stale tAny d true) obs &&
-    res_kv_eqb kern (Ok (enc_result d (resolve Sr ks d)))
+    let kern := match alias with 1 => kernel_nt d Sr tEx Ox | _ => kernel d Sr (c_an alias) tEx Ox end in
+    res_kv_eqb kern (Ok (enc_result d (resolve Sr (c_ks alias Ox) d)))
   end.
+Definition case_ok (c: case_t) : bool := model_ok c && kernel_ok c.
 """
 
 
@@ -485,7 +498,7 @@ def kernel_validation(ctx: vlib.Ctx, n: int):
 
     reg = _Obj()
 
-    def enc(o) -> str:
+    def enc(o) -> str:  # tags are local to one case (reg is reset per case) so that nat literals stay small
         if o is None:
             return "KNone"
         if o is pass_through:
@@ -504,9 +517,9 @@ def kernel_validation(ctx: vlib.Ctx, n: int):
             ann = bool(type(o).__use_annotations__)
             gen = isinstance(o, GS)
             return (f'(KNs [("__use_annotations__", KBool {"true" if ann else "false"}); ("__generic__", KBool {"true" if gen else "false"}); '
-                    f'("serialize", KObj {reg.tag(o) * 2 + 1000}); ("deserialize", KObj {reg.tag(o) * 2 + 1001})])')
+                    f'("serialize", KObj {reg.tag(o) * 2 + 200}); ("deserialize", KObj {reg.tag(o) * 2 + 201})])')
         if isinstance(o, types.MethodType) and isinstance(o.__self__, SerializationStrategy):
-            return f"(KObj {reg.tag(o.__self__) * 2 + (1000 if o.__name__ == 'serialize' else 1001)})"
+            return f"(KObj {reg.tag(o.__self__) * 2 + (200 if o.__name__ == 'serialize' else 201)})"
         if isinstance(o, type) and issubclass(o, Dialect):
             return "(KNs [(\"serialization_strategy\", " + enc(o.serialization_strategy) + ")])"
         if isinstance(o, tuple) and o and o[0] == "annotated_expression":
@@ -566,6 +579,8 @@ def kernel_validation(ctx: vlib.Ctx, n: int):
     unpack._unpack_with_annotated_serialization_strategy = lambda spec, strategy: ("annotated_expression", "unpack", strategy)
     try:
         for i in range(n):
+            reg.ids.clear()
+            reg.n = 20
             tys = [TypeObj(1), TypeObj(2), TypeObj(3)]
             ann = rng.choice([None, tys[0], tys[0], Unhashable()])
             ty = rng.choice([tys[1], tys[1], tys[1], Unhashable()])
@@ -667,6 +682,7 @@ def generate_cases(ctx: vlib.Ctx) -> list[dict]:
             cases.append(gen_case(rng))
     else:
         # all presence subsets per entry point for the richest schema (variants sampled per slot) ...
+        #     (format mixin: 2^14, mixin and dataclass codec: 2^11 each, bare codec: 2^3)
         for entry in ENTRY_LEVELS:
             av = available_slots(entry, "annotated", "list")
             for bits in range(1 << len(av)):
@@ -676,7 +692,7 @@ def generate_cases(ctx: vlib.Ctx) -> list[dict]:
             av = available_slots(entry, "newtype", "dict")
             for bits in range(1 << len(av)):
                 cases.append(gen_case(rng, entry, "newtype", "dict", present=[s for i, s in enumerate(av) if bits >> i & 1]))
-        for _ in range(6000):
+        for _ in range(4000):
             cases.append(gen_case(rng))
     return cases
 
@@ -722,12 +738,16 @@ def run(ctx: vlib.Ctx):
     if not proofs_ok and ctx.quick():
         for _ in range(2500):   # a broken obligation: search harder
             cases.append(gen_case(ctx.rng))
+    import time as _t0
+    t_run = _t0.time()
     if len(cases) > 3000:
         with multiprocessing.get_context("fork").Pool(8) as pool:
             results = pool.map(_worker, cases, chunksize=64)
     else:
         results = [run_case(c) for c in cases]
 
+    import time as _t
+    ctx.notes.append(f"real classes built and run: {len(cases)} in {_t.time() - t_run:.1f}s")
     coq_cases, coq_descr = [], []
     unobservable = 0
     for case, res in zip(cases, results):
@@ -760,22 +780,30 @@ def run(ctx: vlib.Ctx):
         ctx.sample({"entry": case["entry"], "alias": case["alias"], "type": case["tkind"], "slots": case["slots"],
                     "dir": d, "observed": obs, "oracle": oracle_expected(case, d)})
 
-    name = "tagged-classes-vs-model"
-    if ctx.kernel_report.get("K5", {}).get("ok"):
-        bad, log = vlib.coq_bad_idx("c10_m", "PyK_strat Strategies StrategiesProofs K5Proofs", "From VerifGen Require Import K5.",
-                                    COQ_DEFS, coq_cases, "case_ok", "dir * sources * nat * kv * option (list nat * nat)",
-                                    shard=500, needs=["theories/K5Proofs.vo"])
+    # (M) observed marker lists vs the model (and the translated kernel, when it exists) inside Coq
+    def compare(name, imports, gen_imports, defs, okf, needs):
+        bad, log = vlib.coq_bad_idx(name.replace("-", "_"), imports, gen_imports, defs, coq_cases, okf, "case_t", shard=500, needs=needs)
         if bad is None:
             ctx.correspondence(name, len(coq_cases), -1, log)
             ctx.not_shown("correspondence " + name, log)
+            return False
+        det = [f"{coq_descr[i][0]['entry']} {coq_descr[i][1]} alias={coq_descr[i][0]['alias']} type={coq_descr[i][0]['tkind']} "
+               f"slots={coq_descr[i][0]['slots']} observed={coq_descr[i][2]}" for i in bad[:6]]
+        ctx.correspondence(name, len(coq_cases), len(bad), str(det))
+        if bad:
+            ctx.not_shown("correspondence " + name, str(det))
+        return True
+
+    done = False
+    if ctx.kernel_report.get("K5", {}).get("ok"):
+        kb = vlib.coq_make(["theories/K5Kernel.vo"])
+        if kb.ok:
+            done = compare("tagged-classes-vs-model-and-kernel", "PyK_strat Strategies K5Kernel", "From VerifGen Require Import K5.",
+                           COQ_DEFS_MODEL + COQ_DEFS_KERNEL, "case_ok", ["theories/K5Kernel.vo"])
         else:
-            det = [f"{coq_descr[i][0]['entry']} {coq_descr[i][1]} alias={coq_descr[i][0]['alias']} slots={coq_descr[i][0]['slots']} observed={coq_descr[i][2]}"
-                   for i in bad[:6]]
-            ctx.correspondence(name, len(coq_cases), len(bad), str(det))
-            if bad:
-                ctx.not_shown("correspondence " + name, str(det))
-    else:
-        ctx.correspondence(name, len(coq_cases), -1, "K5 was not translated; model comparison skipped")
+            ctx.notes.append("K5Kernel.v does not build against the translated kernel: " + (kb.error or "")[:300])
+    if not done:
+        compare("tagged-classes-vs-model", "PyK_strat Strategies", "", COQ_DEFS_MODEL, "model_ok", ["theories/Strategies.vo"])
 
 
 def replay(rep: dict) -> int:
